@@ -76,6 +76,7 @@ type qRun struct {
 	Limit int     `json:"limit"`
 	Skip  int     `json:"skip"`
 	IDs   []int   `json:"ids"` // ID restriction (limitIDs); empty = none
+	Group []string `json:"group"` // grouping keys (group:"@k1@@k2@"); empty = none
 }
 
 type qInput struct {
@@ -501,7 +502,17 @@ func TestVerifQuery(t *testing.T) {
 					if run.IDs == nil {
 						run.IDs = []int{}
 					}
-					res, more, _, err := SearchStreams(ctx, lay.readers, limitIDs, q.ReferenceTime, q.Conditions, nil, sorting, uint(run.Limit), uint(run.Skip), lay.tags, nil, false)
+					var grouping *query.Grouping
+					if len(run.Group) != 0 {
+						grouping = &query.Grouping{}
+						for _, k := range run.Group {
+							grouping.Variables = append(grouping.Variables, query.DataConditionElementVariable{Name: k})
+						}
+					}
+					if run.Group == nil {
+						run.Group = []string{}
+					}
+					res, more, _, err := SearchStreams(ctx, lay.readers, limitIDs, q.ReferenceTime, q.Conditions, grouping, sorting, uint(run.Limit), uint(run.Skip), lay.tags, nil, false)
 					ids := []int{}
 					for _, s := range res {
 						ids = append(ids, int(s.ID()))
@@ -510,7 +521,7 @@ func TestVerifQuery(t *testing.T) {
 					if err != nil {
 						e = err.Error()
 					}
-					runs = append(runs, map[string]any{"layout": li, "sort": run.Sort, "limit": run.Limit, "skip": run.Skip, "ids": run.IDs, "res": ids, "more": more, "err": e})
+					runs = append(runs, map[string]any{"layout": li, "sort": run.Sort, "limit": run.Limit, "skip": run.Skip, "ids": run.IDs, "group": run.Group, "res": ids, "more": more, "err": e})
 				}
 			}
 			row["runs"] = runs
